@@ -2,6 +2,7 @@ import AasVerif.Model.SdkData
 import AasVerif.Model.SdkJson
 import AasVerif.Model.SdkWf
 import AasVerif.Model.Base64
+import AasVerif.Model.XmlText
 namespace AasVerif.Drive.C10
 open AasVerif AasVerif.Sdk
 
@@ -264,6 +265,7 @@ def b (x : Bool) : String := if x then "1" else "0"
 * `conforms <mm> <class> <val>`    → `1` | `0`
 * `b64enc <bytes>` / `b64dec <text>` → text / `ok <bytes>` | `err:<kind>`
 * `name <prop|model> <identifier>` → JSON name
+* `xmlesc <text>` → escaped text; `xmlcontent <raw>` → `ok <text>` | `none`
 -/
 def handle : List String → Option String
   | ["tojson", mm, v] => do
@@ -293,6 +295,14 @@ def handle : List String → Option String
     | .error .nonAscii => some "err:nonascii"
     | .error .oneChar => some "err:onechar"
     | .error .padding => some "err:padding"
+  | ["xmlesc", t] => do
+    let t ← Text.dec t
+    some (Text.enc (XmlText.escape t))
+  | ["xmlcontent", t] => do
+    let t ← Text.dec t
+    match XmlText.content t with
+    | some r => some ("ok " ++ Text.enc r)
+    | none => some "none"
   | ["name", "prop", i] => do
     let i ← Text.dec i
     some (Text.enc (jsonProperty i))
